@@ -27,7 +27,9 @@ RULE = ("exhaustive: hot tier 2 shards x 2 replicas, all 5^4 behaviour assignmen
         "listed in the observed call order), overlapping or disjoint ID sets, offset/size/order, totals / histograms "
         "(interval 0,1,2,5) / up to 2 aggregations with up to 3 bins / soft errors on half of the scripts, a quarter "
         "each through the real proxyapi Search and ComplexSearch handlers; fetch streams edited by drop/blank/"
-        "truncate(+error)/unrequested/swap/duplicate/reverse, failing fetch calls; direct FetchDocsStream on 1-4 "
+        "truncate(+error)/unrequested/swap/duplicate/reverse, failing fetch calls; SEQUENCES of 2-5 searches on one "
+        "Ingestor (and one proxyapi handler set) whose replica behaviours change between searches (rolling restart at every "
+        "position, flips, random), each search checked against its own behaviours; direct FetchDocsStream on 1-4 "
         "stores with arbitrary request lists; Ingestor.Documents on 1-3 stores. non-trivial = a search script with at "
         "least one non-ok replica / a fetch of >= 2 IDs / Documents of >= 2 IDs on >= 2 stores; distinct by script")
 
